@@ -26,8 +26,11 @@ def root_name(node) -> str:
 def is_fresh_expr(e) -> bool:
     """An expression that certainly allocates a new object / is a call result (not an alias of an argument)."""
     if isinstance(e, (ast.List, ast.Dict, ast.Set, ast.Tuple, ast.ListComp, ast.DictComp, ast.SetComp,
-                      ast.GeneratorExp, ast.Constant, ast.JoinedStr, ast.BinOp, ast.Compare, ast.BoolOp, ast.UnaryOp)):
+                      ast.GeneratorExp, ast.Constant, ast.JoinedStr, ast.BinOp, ast.Compare, ast.UnaryOp)):
         return True
+    if isinstance(e, ast.BoolOp):
+        # `a or b` / `a and b` evaluate to one of their operands: `xs = obj.items or []` aliases obj.items
+        return all(is_fresh_expr(v) for v in e.values)
     if isinstance(e, ast.Await):
         return is_fresh_expr(e.value)
     if isinstance(e, ast.Call):
@@ -67,6 +70,10 @@ class FnEffects(ast.NodeVisitor):
     def _tainted_expr(self, e) -> bool:
         if e is None or is_fresh_expr(e):
             return False
+        if isinstance(e, ast.BoolOp):
+            return any(self._tainted_expr(v) for v in e.values)
+        if isinstance(e, ast.IfExp):
+            return self._tainted_expr(e.body) or self._tainted_expr(e.orelse)
         r = root_name(e)
         return r in self.params or r in self.tainted or r in self.globals or r == "?"
 
@@ -110,6 +117,12 @@ class FnEffects(ast.NodeVisitor):
                     for sub in ([t] if not isinstance(t, (ast.Tuple, ast.List)) else t.elts):
                         if isinstance(sub, (ast.Attribute, ast.Subscript)) and self.shared(sub):
                             self.writes.append("store " + ast.unparse(sub))
+                # an in-place operator on a name that aliases shared state (`xs = obj.items or []; xs += more`) extends
+                # the shared object itself when it is a list / set / dict; numbers and strings are rebound, which the
+                # syntax cannot tell apart - fail closed, the reviewed list names the numeric ones
+                if isinstance(node, ast.AugAssign) and isinstance(node.target, ast.Name) and \
+                        (node.target.id in self.tainted or node.target.id in self.params or node.target.id in self.globals):
+                    self.writes.append("augassign " + node.target.id + " " + type(node.op).__name__)
             elif isinstance(node, ast.Delete):
                 for t in node.targets:
                     if isinstance(t, (ast.Attribute, ast.Subscript)) and self.shared(t):
